@@ -219,6 +219,7 @@ func (m *Manager) manageReader() {
 	var pkt drpcwire.Packet
 	var err error
 	var run int
+	var invoked uint64 // largest stream id an invoke has been forwarded for
 
 	for !m.sigs.term.IsSet() {
 		// if we have a run of "small" packets, drop the buffer to release
@@ -268,6 +269,10 @@ func (m *Manager) manageReader() {
 			}
 			drpcdebug.Point("manager.reader.beforeQueue", m.tr)
 
+			if pkt.Kind == drpcwire.KindInvoke {
+				invoked = pkt.ID.Stream
+			}
+
 			select {
 			case m.pkts <- pkt:
 				m.pdone.Recv()
@@ -284,6 +289,15 @@ func (m *Manager) manageReader() {
 				curr.Cancel(context.Canceled)
 			}
 			drpcdebug.Point("manager.reader.beforeWait", m.tr)
+
+			// only an invoke creates a stream for a new id. if none was seen
+			// for this id (for example a soft cancel sent before the invoke
+			// was written, or a control packet from a newer peer) no stream
+			// will ever show up for the packet, so waiting would stop the
+			// reader forever: drop it instead.
+			if pkt.ID.Stream != invoked {
+				continue
+			}
 
 			if !m.sbuf.Wait(curr.ID()) {
 				return
